@@ -164,8 +164,8 @@ static Str makeFile(const Str& content, const Str& ext)
 {
 	if (tmpdir.empty()) {
 		char b[64];
-		snprintf(b, sizeof b, "/tmp/c10h.%d", (int)getpid());
-		mkdir(b, 0700);
+		snprintf(b, sizeof b, "/tmp/c10h.XXXXXX");
+		if (!mkdtemp(b)) { snprintf(b, sizeof b, "/tmp/c10h.%d", (int)getpid()); mkdir(b, 0700); }
 		tmpdir = b;
 	}
 	char nm[64];
@@ -242,6 +242,7 @@ static Slot* current = 0;
 static std::vector<Slot*> slotQueue;   // pipelined requests of one connection take their slots in order
 static size_t slotPos = 0;
 static bool optionsToHandler = false;
+static std::map<Str, Str> dlFiles;     // request path -> file (op dl)
 
 static Slot* nextQueued()
 {
@@ -262,6 +263,17 @@ public:
 	}
 	void serve(HttpRequest& q, HttpResponse& r)
 	{
+		if (q.path().startsWith("/dl/")) { // concurrent downloads (op dl): the file named by the path
+			Str p;
+			{
+				Lock l(gmx);
+				std::map<Str, Str>::iterator it = dlFiles.find(Z(q.path()));
+				if (it != dlFiles.end()) p = it->second;
+			}
+			if (p.empty()) { r.setCode(404); return; }
+			r.put(File(S(p)));
+			return;
+		}
 		Slot* sl = 0;
 		{
 			Lock l(gmx);
@@ -1062,6 +1074,199 @@ static Str opSockio(const Toks& t)
 	return out;
 }
 
+// ------------------------------------------------------------------ concurrent file downloads
+// dl <seed> <sizes,csv> <n> { <file> <b> <e> <pace> }*n
+//   file k has sizes[k] bytes, byte at offset o = dlByte(seed, k, o).  b = -1: no Range header, else Range: bytes=b-e.
+//   pace 0: raw client reading at once; 1: raw client reading slowly in small pieces; 2: asl Http client;
+//   3: raw client with a small receive buffer that sends its request, waits until every client of pace 0..2 is done,
+//      and only then reads (its handler meanwhile sleeps in send() in the middle of a block).
+// Every client checks status, Content-Length, Content-Range and EVERY body byte against the formula.
+static inline unsigned char dlByte(unsigned long long seed, unsigned long long f, unsigned long long o)
+{
+	unsigned long long v = ((o + 1) * 2654435761ULL + (f + 1) * 40503ULL * (o / 1000 + 1) + seed) & 0xFFFFFFFFULL;
+	return (unsigned char)((v >> 13) & 255);
+}
+
+struct DlShared {
+	pthread_mutex_t mx; pthread_cond_t cv;
+	int fastLeft;
+	int port;
+	unsigned long long seed;
+	std::vector<size_t> sizes;
+};
+
+struct DlClient {
+	DlShared* sh;
+	int id, file, pace;
+	long long b, e;
+	Str verdict; // empty = ok
+	pthread_t th;
+};
+
+static Str dlCheck(DlClient* c, int code, const Str& cl, const Str& cr, const Str& body)
+{
+	size_t n = c->sh->sizes[(size_t)c->file];
+	int wantCode; Str wantCl, wantCr; long long from = 0, len = (long long)n;
+	if (c->b < 0) { wantCode = 200; wantCl = str((long long)n); }
+	else if (c->b <= c->e && c->e < (long long)n) {
+		wantCode = 206; from = c->b; len = c->e - c->b + 1;
+		wantCl = str(len);
+		wantCr = "bytes " + str(c->b) + "-" + str(c->e) + "/" + str((long long)n);
+	}
+	else { wantCode = 416; len = 0; wantCl = "0"; wantCr = "bytes */" + str((long long)n); }
+	if (code != wantCode) return "status " + str(code) + " want " + str(wantCode);
+	if (cl != wantCl) return "Content-Length " + cl + " want " + wantCl;
+	if (cr != wantCr) return "Content-Range [" + cr + "] want [" + wantCr + "]";
+	if ((long long)body.size() != len) return "body length " + str((long long)body.size()) + " want " + str(len);
+	for (long long k = 0; k < len; k++) {
+		unsigned char w = dlByte(c->sh->seed, (unsigned)c->file, (unsigned long long)(from + k));
+		if ((unsigned char)body[(size_t)k] != w) {
+			char b[96];
+			snprintf(b, sizeof b, "first wrong body offset %lld (file offset %lld): got %02x want %02x", k, from + k, (unsigned char)body[(size_t)k], w);
+			return b;
+		}
+	}
+	return "";
+}
+
+static void* dlRun(void* p)
+{
+	DlClient* c = (DlClient*)p;
+	DlShared* sh = c->sh;
+	char path[32];
+	snprintf(path, sizeof path, "/dl/%d", c->file);
+	Str range;
+	if (c->b >= 0) range = "bytes=" + str(c->b) + "-" + str(c->e);
+	int code = 0; Str cl, cr, body;
+	if (c->pace == 2) {
+		HttpRequest q("GET", String::f("http://127.0.0.1:%d", sh->port) + path);
+		if (!range.empty()) q.setHeader("Range", S(range));
+		HttpResponse res = Http::request(q);
+		code = res.code();
+		cl = Z(res.header("Content-Length"));
+		cr = Z(res.header("Content-Range"));
+		body = Str((const char*)res.body().data(), (size_t)res.body().length());
+	}
+	else {
+		int fd = socket(AF_INET, SOCK_STREAM, 0);
+		if (c->pace == 3) { int small = 4096; setsockopt(fd, SOL_SOCKET, SO_RCVBUF, &small, sizeof small); }
+		sockaddr_in a;
+		memset(&a, 0, sizeof a);
+		a.sin_family = AF_INET;
+		a.sin_port = htons((unsigned short)sh->port);
+		a.sin_addr.s_addr = htonl(INADDR_LOOPBACK);
+		if (fd < 0 || connect(fd, (sockaddr*)&a, sizeof a) != 0) { c->verdict = "connect failed"; if (fd >= 0) close(fd); goto done; }
+		{
+			Str req = Str("GET ") + path + " HTTP/1.1\r\nHost: x\r\n" + (range.empty() ? "" : "Range: " + range + "\r\n") + "Connection: close\r\n\r\n";
+			sendAll(fd, req.data(), req.size());
+			if (c->pace == 3) { // let the handler fill the socket buffers and sleep in send(), until the others are done
+				pthread_mutex_lock(&sh->mx);
+				while (sh->fastLeft > 0) pthread_cond_wait(&sh->cv, &sh->mx);
+				pthread_mutex_unlock(&sh->mx);
+			}
+			Str all;
+			char buf[65536];
+			for (;;) {
+				int want = c->pace == 1 ? 1 + (int)((all.size() * 7 + (size_t)c->id) % 3000) : (int)sizeof buf;
+				pollfd pf; pf.fd = fd; pf.events = POLLIN; pf.revents = 0;
+				if (poll(&pf, 1, 15000) <= 0) break;
+				int k = (int)recv(fd, buf, (size_t)want, 0);
+				if (k <= 0) break;
+				all.append(buf, (size_t)k);
+				if (c->pace == 1 && (all.size() / 3000) % 8 == 0) usleep(200);
+			}
+			close(fd);
+			size_t he = all.find("\r\n\r\n");
+			if (he == Str::npos) { c->verdict = "no header block (" + str((long long)all.size()) + " bytes)"; goto done; }
+			Str head = all.substr(0, he + 2);
+			body = all.substr(he + 4);
+			size_t sp = head.find(' ');
+			code = atoi(head.c_str() + sp + 1);
+			size_t q1 = head.find("\r\nContent-Length: ");
+			if (q1 != Str::npos) cl = head.substr(q1 + 18, head.find("\r\n", q1 + 2) - (q1 + 18));
+			q1 = head.find("\r\nContent-Range: ");
+			if (q1 != Str::npos) cr = head.substr(q1 + 17, head.find("\r\n", q1 + 2) - (q1 + 17));
+		}
+	}
+	c->verdict = dlCheck(c, code, cl, cr, body);
+done:
+	if (c->pace != 3) {
+		pthread_mutex_lock(&sh->mx);
+		sh->fastLeft--;
+		pthread_cond_broadcast(&sh->cv);
+		pthread_mutex_unlock(&sh->mx);
+	}
+	return 0;
+}
+
+static Str opDl(const Toks& t)
+{
+	if (t.size() < 4) return "bad-op";
+	DlShared sh;
+	sh.seed = strtoull(t[1].c_str(), 0, 10);
+	sh.sizes = sizesOf(t[2]);
+	int n = atoi(t[3].c_str());
+	if (n < 1 || n > 256 || t.size() != 4 + 4 * (size_t)n || sh.sizes.empty()) return "bad-op";
+	if (!ensureServer()) return "err bind";
+	sh.port = srv->thePort;
+	pthread_mutex_init(&sh.mx, 0);
+	pthread_cond_init(&sh.cv, 0);
+	// the files, in this process's own temporary directory
+	std::vector<Str> paths;
+	for (size_t f = 0; f < sh.sizes.size(); f++) {
+		Str content(sh.sizes[f], '\0');
+		for (size_t o = 0; o < content.size(); o++) content[o] = (char)dlByte(sh.seed, f, o);
+		Str p = makeFile(content, "bin");
+		paths.push_back(p);
+		char key[32];
+		snprintf(key, sizeof key, "/dl/%d", (int)f);
+		Lock l(gmx);
+		dlFiles[key] = p;
+	}
+	std::vector<DlClient*> cs;
+	sh.fastLeft = 0;
+	bool bad = false;
+	for (int i = 0; i < n; i++) {
+		DlClient* c = new DlClient;
+		c->sh = &sh; c->id = i;
+		c->file = atoi(t[4 + 4 * i].c_str());
+		c->b = atoll(t[5 + 4 * i].c_str());
+		c->e = atoll(t[6 + 4 * i].c_str());
+		c->pace = atoi(t[7 + 4 * i].c_str());
+		if (c->file < 0 || (size_t)c->file >= sh.sizes.size() || c->pace < 0 || c->pace > 3) bad = true;
+		if (c->pace != 3) sh.fastLeft++;
+		cs.push_back(c);
+	}
+	Str out;
+	if (!bad) {
+		// the delayed clients first, so that their handlers are asleep in send() when the others run
+		for (int i = 0; i < n; i++) if (cs[i]->pace == 3) pthread_create(&cs[i]->th, 0, dlRun, cs[i]);
+		bool anyDelayed = false;
+		for (int i = 0; i < n; i++) if (cs[i]->pace == 3) anyDelayed = true;
+		if (anyDelayed) usleep(150000);
+		for (int i = 0; i < n; i++) if (cs[i]->pace != 3) pthread_create(&cs[i]->th, 0, dlRun, cs[i]);
+		if (sh.fastLeft == 0) { pthread_mutex_lock(&sh.mx); pthread_cond_broadcast(&sh.cv); pthread_mutex_unlock(&sh.mx); }
+		int ok = 0;
+		for (int i = 0; i < n; i++) {
+			pthread_join(cs[i]->th, 0);
+			if (cs[i]->verdict.empty()) ok++;
+			else if (out.empty())
+				out = "bad client " + str(i) + " file " + str(cs[i]->file) + " range " + str(cs[i]->b) + "-" + str(cs[i]->e) + " pace " + str(cs[i]->pace) + ": " + cs[i]->verdict;
+		}
+		if (out.empty()) out = "ok " + str(ok);
+	}
+	else out = "bad-op";
+	for (size_t i = 0; i < cs.size(); i++) delete cs[i];
+	{
+		Lock l(gmx);
+		dlFiles.clear();
+	}
+	for (size_t f = 0; f < paths.size(); f++) unlink(paths[f].c_str());
+	pthread_mutex_destroy(&sh.mx);
+	pthread_cond_destroy(&sh.cv);
+	return out;
+}
+
 static std::string step(const Toks& t)
 {
 	const std::string& op = t[0];
@@ -1072,6 +1277,7 @@ static std::string step(const Toks& t)
 	if (op == "big") return opBig(t);
 	if (op == "sockio") return opSockio(t);
 	if (op == "par") return opPar(t);
+	if (op == "dl") return opDl(t);
 	if (op == "options") { optionsToHandler = t.size() > 1 && t[1] == "1"; return "ok"; }
 	return "bad-op";
 }
